@@ -278,6 +278,12 @@ def build(tier, ctx):
     n = 4 if tier == "quick" else 6
     defs = pvcommon.scope_defs(ctx["repo"], n)
     defs += fragment.corpus_multiple_same(ctx["repo"])
+    # long sequences (merge, loop ends far from the fork / loop start) and
+    # the staged-merge and kill-in-loop families of C01
+    defs += [("FX", d) for d in fragment.stretched_family(
+        3 if tier == "quick" else 4, 10)]
+    defs += [("FS", d) for d in fragment.staged_merge_family()]
+    defs += [("FD", d) for d in fragment.kill_in_loop_family()]
     # add the design's witness for "no new evidence for some events"
     tasks = [{"kind": "H", "tier": tier, "defs": [(nm, dsl.to_list(d))]}
              for nm, d in defs]
